@@ -248,6 +248,12 @@ func (r *Registry) LoadOutputs(
 	return nil
 }
 
+// ValidateTargetResult reports whether the cached targetResult describes exactly the outputs
+// the target declares, i.e. whether its outputs could be loaded from it.
+func ValidateTargetResult(target *model.Target, targetResult *gen.TargetResult) error {
+	return validateTargetResultOutputs(target, targetResult)
+}
+
 func validateTargetResultOutputs(target *model.Target, targetResult *gen.TargetResult) error {
 	if targetResult == nil {
 		return fmt.Errorf("%s: cached target result is nil", target.Label)
